@@ -30,6 +30,16 @@ EXTRA = ['x', 'y']          # names only **kw can take
 _counter = [0]
 
 
+class _NonLiteral:
+  """A default value with no literal form (its repr does not parse)."""
+
+  def __repr__(self):
+    return '<nonliteral default>'
+
+
+NONLITERAL = _NonLiteral()
+
+
 def default_of(name):
   return 'D:' + name
 
@@ -38,15 +48,24 @@ def signature_source(shape, first=None):
   parts = [first] if first else []
   parts += list(shape['pos'])
   req = set(shape.get('required_defaults') or [])
+  nonlit = set(shape.get('nonliteral_defaults') or [])
+
+  def dflt(d):
+    if d in req:
+      return f'{d}=REQUIRED'
+    if d in nonlit:
+      return f'{d}=NONLITERAL'
+    return f'{d}={default_of(d)!r}'
+
   for d in shape['dflt']:
-    parts.append(f'{d}=REQUIRED' if d in req else f'{d}={default_of(d)!r}')
+    parts.append(dflt(d))
   if shape['varargs']:
     parts.append('*args')
   elif shape['kwonly'] or shape['kwdflt']:
     parts.append('*')
   parts += list(shape['kwonly'])
   for d in shape['kwdflt']:
-    parts.append(f'{d}=REQUIRED' if d in req else f'{d}={default_of(d)!r}')
+    parts.append(dflt(d))
   if shape['varkw']:
     parts.append('**kw')
   return ', '.join(parts)
@@ -103,6 +122,7 @@ def build(shape, gin, lists_on='target'):
   mod = types.ModuleType(modname)
   mod.__dict__['gin'] = gin
   mod.__dict__['REQUIRED'] = gin.REQUIRED
+  mod.__dict__['NONLITERAL'] = NONLITERAL
   mod.LOG = []
 
   def _record(named, args, kw):
